@@ -3,8 +3,11 @@
 
    Characters are code points, a token is a sequence of them, an output is the text
    pkg-config printed.  A package is [cf |-> output of --cflags, lb |-> output of --libs,
-   fail |-> "none" | "cflags" | "libs"] (fail: that call exits non-zero / prints bytes that
-   cannot be decoded / cannot be run).
+   fail |-> "none" | "cflags" | "libs", how |-> "status" | "signal" | "undecodable" | "missing"]:
+   fail names the call that does not succeed and how says why: it exits with a non-zero status,
+   it is terminated by a signal (after printing cf / lb, possibly a partial line), it prints
+   bytes that cannot be decoded, or pkg-config cannot be run at all.  Ideal: any call that
+   does not exit with status 0 (or cannot be decoded / run) => PkgConfigError, nothing returned.
 
    Ideal: Translate / MergeAll below.  Implementation model: the six list comprehensions
    of flags_from_pkgconfig (src/cffi/pkgconfig.py:86-108), kwargs() (:111) and the
@@ -18,7 +21,8 @@
      "rsplit"     -DX=a=b split at the last '='
      "dupD"       -D tokens also copied to extra_compile_args
      "overwrite"  merge replaces instead of extending
-     "dropempty"  tokens that are only a prefix ("-I") dropped                       *)
+     "dropempty"  tokens that are only a prefix ("-I") dropped
+     "signalok"   returncode > 0 instead of returncode != 0 (death by signal accepted)  *)
 EXTENDS Integers, Sequences, FiniteSets, TLC
 CONSTANTS Variant
 
@@ -39,7 +43,8 @@ Split(s) ==
         Kth(S, k) == CHOOSE i \in S : Cardinality({j \in S : j < i}) = k - 1
     IN [k \in 1..Cardinality(starts) |-> SubSeq(s, Kth(starts, k), Kth(ends, k))]
 \* a package with its two outputs tokenised once
-Tok(pkgs) == [i \in DOMAIN pkgs |-> [cf |-> Split(pkgs[i].cf), lb |-> Split(pkgs[i].lb), fail |-> pkgs[i].fail]]
+Tok(pkgs) == [i \in DOMAIN pkgs |-> [cf |-> Split(pkgs[i].cf), lb |-> Split(pkgs[i].lb), fail |-> pkgs[i].fail,
+                                     how |-> pkgs[i].how]]
 Starts(tok, c) == Len(tok) >= 2 /\ tok[1] = cDash /\ tok[2] = c       \* x.startswith("-I")
 Drop2(tok) == SubSeq(tok, 3, Len(tok))                                  \* x[2:]
 Pfx(tok) == IF Starts(tok, cI) THEN "I" ELSE IF Starts(tok, cL) THEN "L" ELSE IF Starts(tok, cl) THEN "l"
@@ -127,11 +132,16 @@ MergeFlags(c1, c2) ==
         IF k \notin DOMAIN c1 THEN c2[k]
         ELSE IF k \notin DOMAIN c2 THEN c1[k]
         ELSE IF Variant = "overwrite" THEN c2[k] ELSE c1[k] \o c2[k]]
+\* call() (:27-47): subprocess return code > 0 for an exit status, < 0 for death by a signal
+ReturnCode(how) == IF how = "status" THEN 1 ELSE IF how = "signal" THEN 0 - 9 ELSE 0
+CallRaises(how) == \/ how = "missing"                                           \* :33 OSError from Popen
+                   \/ (IF Variant = "signalok" THEN ReturnCode(how) > 0 ELSE ReturnCode(how) # 0)   \* :38
+                   \/ how = "undecodable"                                        \* :46 UnicodeDecodeError
 RECURSIVE Loop(_, _)
 Loop(pkgs, ret) ==                                                      \* :124-127
     IF pkgs = <<>> THEN [err |-> FALSE, res |-> ret]
     ELSE LET p == Head(pkgs) IN
-         IF p.fail # "none" THEN [err |-> TRUE, res |-> Empty]          \* call() raises PkgConfigError
+         IF p.fail # "none" /\ CallRaises(p.how) THEN [err |-> TRUE, res |-> Empty]   \* call() raises PkgConfigError
          ELSE Loop(Tail(pkgs), MergeFlags(ret, Kwargs(p.cf, p.lb)))          \* pkgs already tokenised (Tok)
 ImplT(tp) == LET r == Loop(tp, << >>) IN
               IF r.err THEN r ELSE [err |-> FALSE, res |-> [k \in KeySet |-> IF k \in DOMAIN r.res THEN r.res[k] ELSE <<>>]]
